@@ -215,6 +215,7 @@ def chunks(lst, n):
 
 
 def finish_file_check(res, prop, tier, events, work, prefixes, findings, rule):
+    events = renumber(common.split_broken(res, prop, events))
     verdicts, nval, cmd = common.validate_traces("Trace_File", events, work, chunk=400)
     res.cmds.append(cmd)
     res.traces += nval
@@ -257,12 +258,12 @@ def check_c02(prop, tier):
         for ch in chunks(seeds, common.NCPU):
             jobs.append(("rand", ch, start, work))
             start += len(ch)
-        events = parallel(_c02_job, jobs)
+        events = parallel(common.Guarded(_c02_job, 1), jobs)
         # tiers with slivers (on an exact grid): the written file must still be a partition of the file's span
         # (a file span shorter than the threshold cannot be both a partition and free of sub-threshold intervals: left out)
         sv = [v for v in c04_random_vectors(sz["c04rand"] // 3, common.SEED + 1) if v["blanks"] and not all_slivers(v)]
-        events += parallel(_c04_job, [(ch, 0, work) for ch in chunks(sv, common.NCPU)])
-        events = renumber(events)
+        events += parallel(common.Guarded(_c04_job), [(ch, 0, work) for ch in chunks(sv, common.NCPU)])
+        events = renumber(common.split_broken(res, prop, events))
         for ev in events:
             if ev["st"] == "ok" and ev["mem"]["tiers"]:
                 res.distinct.add((ev["args"]["blanks"], ev["args"]["haslo"], ev["args"]["hashi"], len(ev["mem"]["tiers"]),
@@ -374,7 +375,7 @@ def check_c04(prop, tier):
         for ch in chunks(vecs, common.NCPU * 2):
             jobs.append((ch, start, work))
             start += len(ch)
-        events = renumber(parallel(_c04_job, jobs))
+        events = renumber(common.split_broken(res, prop, parallel(common.Guarded(_c04_job), jobs)))
         for ev in events:
             if ev["mem"]["tiers"] and ev["mem"]["tiers"][0]["ents"]:
                 a = ev["args"]
@@ -538,7 +539,7 @@ def check_c03(prop, tier):
         for ch in chunks(items, common.NCPU * 2):
             jobs.append((ch, start, work))
             start += len(ch)
-        events = parallel(_c03_job, jobs)
+        events = common.split_broken(res, prop, parallel(common.Guarded(_c03_job), jobs))
         groups = {}
         for ev in events:
             if ev["layout"] in ("short", "long", "elan"):
@@ -666,7 +667,7 @@ def check_c01(prop, tier):
         for ch in chunks(seeds, common.NCPU):
             jobs.append(("rand", ch, start, work))
             start += 2 * len(ch)
-        events = renumber(parallel(_c01_job, jobs))
+        events = renumber(common.split_broken(res, prop, parallel(common.Guarded(_c01_job, 1), jobs)))
         for ev in events:
             if ev["mem"]["tiers"]:
                 res.distinct.add((ev["fmt"], ev["args"]["blanks"], ev["args"]["inclEmpty"], ev["st1"], ev["st2"],
